@@ -210,18 +210,6 @@ func publicRegexCalls(b []byte) []publicResult {
 	}
 }
 
-// checkSchemaLex runs the schema scanner alone (hook VerifScan) over b.
-func checkSchemaLex(b []byte) Outcome {
-	_, _, f := jschema.VerifScan(b, false)
-	if f == nil {
-		return Outcome{OK: true, Pos: -1}
-	}
-	if e, ok := f.(error); ok {
-		return outcomeOf(e)
-	}
-	return Outcome{Kind: "panic", Code: -2, Pos: -1, Panic: fmt.Sprint(f)}
-}
-
 func init() {
 	register("c05graph", func(args []string) int {
 		fs := flag.NewFlagSet("c05graph", flag.ExitOnError)
